@@ -78,7 +78,7 @@ def rule_specs(tier):
     out = []
     x0 = {'A': 2.0, 'B': 3.0, 'C': 1.5, 'X': 0.0, 'Y': 0.0}
     rx = [ma(['A'], ['B'], 'kf')]
-    freqs = ['repeated', 'start', 'dt', '0.5', 0.5]
+    freqs = ['repeated', 'start', 'dt', '0.5', 0.5, 0, 0.0]
     rules = []
     for f in freqs:
         rules.append(dict(type='additive', target='X', sources=['A', 'B'], freq=f))
